@@ -52,6 +52,32 @@ def _vc_worker(name):
     return {"name": name, "res": res, "info": info, "canaries": can, "sample_smt": smt}
 
 
+def recheck_kernel(rep, name, prefix, consequence):
+    """Modularity: a property that relies on the contract of a grouping kernel discharges that contract
+    itself. If an obligation is lost -- or the contract no longer binds to the code -- the real kernel is
+    run on the bounded domain; a concrete failing input turns the undecided result into a violation."""
+    lost = []
+    where = "src/_gettsim/groupings.py"
+    try:
+        vcs, info = kernels.verification_conditions(name)
+        where = info["where"]
+        for oname, status, backend, secs, reason in kernels.discharge(vcs, 30):
+            rep.ob(f"{prefix} " + oname, status, backend, secs, where, "vc", reason)
+            if status != "discharged":
+                lost.append(oname)
+    except kernels.Unsupported as ex:
+        rep.ob(f"{prefix} {name}: contract binds to the code", "unsupported", "E2", 0, where, "binding", str(ex))
+        lost.append(f"{name}: contract binds to the code")
+    if lost:
+        bad = (_bounded_couples(4) if name in ("eg_id_numpy", "ehe_id_numpy", "sn_id_numpy") else _bounded_bg_wthh(3))[2]
+        bad = [b for b in bad if b["kernel"] == name]
+        if bad:
+            rep.undecided = [u for u in rep.undecided if not u.startswith(prefix + " ")]
+            rep.violation(f"{name}:contract", f"{consequence}: {name} on {bad[0]['inputs']} gives {bad[0]['got']} {bad[0].get('note', '')}", {"obligation": lost[0], **bad[0]}, True)
+    rep.functions.add(f"src/_gettsim/groupings.py {name} (by contract)")
+    return lost
+
+
 # ---------------------------------------------------------------------------------------
 # bounded exhaustive runs of the real kernels against the executable spec
 # ---------------------------------------------------------------------------------------
@@ -112,6 +138,24 @@ def _bounded_bg_wthh(nmax):
                 if gs.partition_of(ids) != gs.expected_bg(fga, alter, eig) or any(int(b) // 100 != int(f) for b, f in zip(ids, fga)):
                     if len(bad) < 5:
                         bad.append({"kernel": "bg_id_numpy", "inputs": {"fg_id": fga.tolist(), "alter": alter.tolist(), "eigenbedarf_gedeckt": eig.tolist()}, "got": ids.tolist()})
+        if n == nmax:
+            # many families with one self-supporting child each, in three row layouts: the offsets count
+            # per family (nesting bg // 100 == fg for every row), however many such children the data holds
+            m = 130
+            for layout in ("parent,child per family", "all parents, then all children", "children first"):
+                fam = list(range(m))
+                rows = [(f, 40, False) for f in fam] + [(f, 20, True) for f in fam]
+                if layout.startswith("parent,child"):
+                    rows = [r for f in fam for r in ((f, 40, False), (f, 20, True))]
+                elif layout == "children first":
+                    rows = rows[m:] + rows[:m]
+                fga, alter, eig = (numpy.array([r[k] for r in rows]) for k in range(3))
+                ids = g.bg_id_numpy(fga, alter, eig)
+                n_eval += 1
+                distinct += 1
+                if gs.partition_of(ids) != gs.expected_bg(fga, alter, eig) or any(int(b) // 100 != int(f) for b, f in zip(ids, fga)):
+                    k = next((i for i, (b, f) in enumerate(zip(ids, fga)) if int(b) // 100 != int(f)), 0)
+                    bad.append({"kernel": "bg_id_numpy", "inputs": {"layout": f"{m} families, {layout}", "fg_id": fga.tolist()[: k + 1][-6:], "alter": alter.tolist()[: k + 1][-6:], "eigenbedarf_gedeckt": eig.tolist()[: k + 1][-6:]}, "got": ids.tolist()[: k + 1][-6:], "note": f"row {k}: bg_id {int(ids[k])} does not lie in the block of fg_id {int(fga[k])}"})
         for hh in itertools.product([0, 5], repeat=n):
             for f1 in itertools.product([False, True], repeat=n):
                 for f2 in itertools.product([False, True], repeat=n):
